@@ -379,6 +379,40 @@ def rand_pair(rng, leaves):
     return s, t
 
 
+ALIAS_POOL_SMALL = [V('X'), V('Y'), A('a'), A('b')]
+ALIAS_POOL = [V('X'), V('Y'), V('Z'), V('W'), A('a'), A('b'), C('f', A('a')), C('f', A('b')), C('f', V('X')), C('f', V('Z'))]
+
+
+def shape(kind, args):
+    """One argument vector, three ways of hanging it into a term: flat t/n, right-nested g/2, list."""
+    if kind == 0:
+        return C('t', *args)
+    if kind == 1:
+        t = args[-1]
+        for x in reversed(args[:-1]):
+            t = C('g', x, t)
+        return t
+    t = NIL
+    for x in reversed(args):
+        t = cons(x, t)
+    return t
+
+
+def alias_pairs_exhaustive():
+    """All pairs t(A1,A2,A3) / t(B1,B2,B3) with arguments from {X,Y,a,b}: every order in which two variables can be
+    bound, aliased and then hit by a clashing or agreeing binding (4 096 pairs)."""
+    import itertools
+    vecs = list(itertools.product(ALIAS_POOL_SMALL, repeat=3))
+    return [(shape(0, u), shape(0, v)) for u in vecs for v in vecs]
+
+
+def alias_pair_random(rng):
+    n = rng.choice([3, 3, 4, 4, 5])
+    k = rng.randrange(3)
+    pool = ALIAS_POOL[:rng.choice([6, 8, 10])]
+    return (shape(k, [rng.choice(pool) for _ in range(n)]), shape(k, [rng.choice(pool) for _ in range(n)]))
+
+
 # ---------------------------------------------------------------------------- classification of defects
 def rational_unifiable(s, t):
     """Unification WITHOUT occurs check (rational trees, union-find).  Only used to *name* the
@@ -662,6 +696,29 @@ def judge(ctx, enc, exe, cases):
     for r in pl.pmap(run_batch, batches, jobs=ctx.n(8, 14), chunksize=1):
         obs.extend(r)
     nbad = 0
+    # reference-free contradiction: on one and the same pair `=` and `\=` must not both fail, nor both succeed
+    # (`=` observed at top level and inside a clause body)
+    by_pair = {}
+    for (mode, s, t), ob in zip(cases, obs):
+        if mode in ('eq', 'body', 'neq') and ob[0] == 'ok':
+            by_pair.setdefault((s, t), {})[mode] = bool(ob[1])
+    for (s, t), r in by_pair.items():
+        if 'neq' not in r:
+            continue
+        for m in ('eq', 'body'):
+            if m in r and r[m] == r['neq']:
+                ctx.count("eq_neq_contradictions")
+                nbad += 1
+                # only a pair with a real occurs-check obstacle may fall under the known \= class
+                klass = "neq-indirect-occurs-check-missed" if (not r['neq'] and occurs_check_case(s, t)) else None
+                ctx.count("contradiction_" + str(klass))
+                seen = ctx.__dict__.setdefault("_c14_reported", {})
+                seen[("contra", klass)] = seen.get(("contra", klass), 0) + 1
+                if seen[("contra", klass)] > (25 if klass is None else 2):
+                    continue
+                ctx.violation("%s = %s (%s) and %s \\= %s both %s" % (text(s), text(t), "top level" if m == 'eq' else "in a clause body",
+                                                                     text(s), text(t), "succeed" if r['neq'] else "fail"),
+                              {"mode": "contradiction-" + m, "s": text(s), "t": text(t), "s_term": s, "t_term": t}, klass=klass)
     for (mode, s, t), exp, ob in zip(cases, expected, obs):
         key = (mode, canon(C('x', strip_quote(s), strip_quote(t))))
         if mode == 'neq':
@@ -814,6 +871,10 @@ def run(ctx):
         pairs += [(ctx.rng.choice(ts2), ctx.rng.choice(ts2)) for _ in range(1500)]
     ctx.cov["exhaustive_pairs"] = len(pairs)
     judge(ctx, enc, exe, make_cases(pairs, modes))
+    # (1b) aliasing family: flat argument vectors with variables repeated on both sides
+    ap = alias_pairs_exhaustive() + [alias_pair_random(ctx.rng) for _ in range(ctx.n(2500, 30000))]
+    ctx.cov["alias_pairs"] = len(ap)
+    judge(ctx, enc, exe, make_cases(ap, modes))
     # (2) random larger pairs
     nrand = ctx.n(2500, 40000)
     rp = [rand_pair(ctx.rng, LEAVES_MED) for _ in range(nrand)]
